@@ -2,6 +2,7 @@ package callsim
 
 import (
 	"fmt"
+	"hash/fnv"
 	"os"
 	"path/filepath"
 
@@ -21,6 +22,10 @@ type Session struct {
 	Whole  map[string]*val.V `json:"whole"`  // inputs of the reference whole-sequence Run
 	Cuts   []int             `json:"cuts"`
 	Config string            `json:"config"`
+	// WholeModel: 1 + index of the model the whole-sequence reference runs on when it is not Model (0 = Model).
+	// Used by "stateless start" sessions: the whole run and the first piece use a twin model WITHOUT initial-state
+	// inputs (state absent = zeros), later pieces the model with state inputs.
+	WholeModel int `json:"whole_model,omitempty"`
 	// Layout (defaults: sequence axis 0 of X and Y, outputs Y / Y_h / Y_c)
 	SeqAxis int    `json:"seq_axis,omitempty"`
 	YOut    string `json:"y_out,omitempty"`
@@ -89,6 +94,8 @@ type recModel struct {
 	hName  string
 	cName  string
 	nNodes int
+	// stateless: the same node and weights without initial_h / initial_c inputs
+	stateless ModelSpec
 }
 
 func drawRecModel(r *rng.R, kind string) recModel {
@@ -106,6 +113,21 @@ func drawRecModel(r *rng.R, kind string) recModel {
 		}
 	}
 	e := corpus.Bind("c06/"+kind, []corpus.OpCase{oc}, binds, true)
+	// twin without state inputs (operands 5 and 6 absent), same weights and bindings
+	oc2 := oc
+	oc2.Operands = append([]corpus.Operand{}, oc.Operands...)
+	for i := 5; i <= 6 && i < len(oc2.Operands); i++ {
+		oc2.Operands[i] = corpus.Operand{BatchAxis: -1}
+	}
+	for len(oc2.Operands) > 3 && oc2.Operands[len(oc2.Operands)-1].V == nil {
+		oc2.Operands = oc2.Operands[:len(oc2.Operands)-1]
+	}
+	e2 := corpus.Bind("c06/"+kind+"/stateless", []corpus.OpCase{oc2}, binds, true)
+	for i := range e2.Model.Inputs {
+		if e2.Model.Inputs[i].Name == "a0" {
+			e2.Model.Inputs[i].Shape = []int64{0, 0, int64(cfg.Input)}
+		}
+	}
 	rm := recModel{cfg: cfg, xName: "a0", hName: "a5", nNodes: len(e.Model.Nodes)}
 	if kind == "LSTM" {
 		rm.cName = "a6"
@@ -125,6 +147,10 @@ func drawRecModel(r *rng.R, kind string) recModel {
 		e.Model.Outputs = append(e.Model.Outputs, mb.IO{Name: "Yt", NoShape: true})
 	}
 	rm.spec = ModelSpec{Name: "c06/" + cfg.String() + fmt.Sprint(e.Bindings), Bytes: e.Model.Bytes(), Ops: []string{kind}}
+	tb := e2.Model.Bytes()
+	th := fnv.New64a()
+	th.Write(tb)
+	rm.stateless = ModelSpec{Name: fmt.Sprintf("c06/stateless-twin/%s#%016x", cfg.String(), th.Sum64()), Bytes: tb, Ops: []string{kind}}
 	return rm
 }
 
@@ -210,6 +236,24 @@ func drawWorld06(r *rng.R) *Case {
 			cuts := drawCuts(r, seq)
 			whole, pieces := buildSession(r, rm, mi, seq, batch, cuts)
 			sess := Session{Task: ti, Model: mi, Kind: rm.cfg.Kind, Whole: whole, Cuts: cuts, Config: rm.cfg.String()}
+			if r.Chance(1, 3) {
+				// stateless start: no initial state for the whole run and the first piece (twin model), carried state after
+				twin := -1
+				for k, ms := range c.World.Models {
+					if ms.Name == rm.stateless.Name {
+						twin = k
+					}
+				}
+				if twin < 0 {
+					c.World.Models = append(c.World.Models, rm.stateless)
+					twin = len(c.World.Models) - 1
+				}
+				sess.WholeModel = twin + 1
+				sess.Whole = map[string]*val.V{rm.xName: whole[rm.xName]}
+				sess.Config += " stateless-start"
+				pieces[0].Model = twin
+				pieces[0].Inputs = map[string]*val.V{rm.xName: pieces[0].Inputs[rm.xName]}
+			}
 			prev := -1
 			for _, p := range pieces {
 				// faults between pieces
@@ -261,7 +305,11 @@ func drawWorld06(r *rng.R) *Case {
 func judge06(c *Case, wr *worldRun, rc *refCache) []verdict {
 	var vs []verdict
 	for si, s := range c.Sessions {
-		ref := rc.fresh(&c.World.Models[s.Model], s.Whole, nil, false)
+		wm := s.Model
+		if s.WholeModel > 0 {
+			wm = s.WholeModel - 1
+		}
+		ref := rc.fresh(&c.World.Models[wm], s.Whole, nil, false)
 		add := func(sig, what string) {
 			vs = append(vs, verdict{sig: sig, what: fmt.Sprintf("session %d (task %d, %s, cuts %v): %s", si, s.Task, s.Config, s.Cuts, what), task: s.Task})
 		}
@@ -340,7 +388,12 @@ func Worker06(cfg Config) *evid.Stats {
 		rn.note(c, wr)
 		nt := false
 		for _, s := range c.Sessions {
-			ref := rn.rc.fresh(&c.World.Models[s.Model], s.Whole, nil, false)
+			wm := s.Model
+			if s.WholeModel > 0 {
+				wm = s.WholeModel - 1
+				st.Probe("session_stateless_start")
+			}
+			ref := rn.rc.fresh(&c.World.Models[wm], s.Whole, nil, false)
 			st.Probe("whole_" + ref.Kind)
 			if ref.Kind == "ok" && len(s.Pieces) >= 2 {
 				nt = true
